@@ -103,3 +103,34 @@ def judge_case(c, o, want):
                 if abs(alt_at(jd0 + h[nm] / 24.0, e["lat"], e["lon"])[0] - tgt) > tol:
                     return True
     return False
+
+
+def confirm_jd_candidates(rep, results, want=("dhuhr",)):
+    """Julian Days on which a solver obligation about Astro::new (sidereal-time spec) fails -> the public date / GMT offset whose local
+    midnight is exactly that instant (and the two neighbouring dates), judged by the property-level criterion of the sweep."""
+    cands = [c for x in results for c in x["cands"] if c.get("sid_jd") and c.get("inputs", {}).get("jd") is not None]
+    if not cands:
+        return False
+    eph = []
+    for c in cands[:8]:
+        x = float(c["inputs"]["jd"]) - 1721424.5
+        o = round(x)
+        g = max(-12.0, min(12.0, 24.0 * (o - x)))
+        for dd in (0, -1, 1):
+            if 1 <= o + dd <= 3652059:
+                eph.append({"api": "k_ephemeris", "date": datetime.date.fromordinal(int(o) + dd).isoformat(), "gmt": g, "lat": 30.0, "lon": 15.0 * g, "elev": 0.0})
+    tri = kreplay.run(eph)
+    cases = [{"api": "k_get_hours", "lat": e["lat"], "lon": e["lon"], "elev": 0.0, "astros": t["astros"],
+              "params": {"method": "Isna", "ext": "None", "round": "None"}, "from": e} for e, t in zip(eph, tri) if "astros" in t]
+    hit = False
+    for c, o in zip(cases, kreplay.run(cases)):
+        if judge_case(c, o, set(want)):
+            e = c["from"]
+            d = datetime.date.fromisoformat(e["date"])
+            jd0 = d.toordinal() + 1721424.5 - e["gmt"] / 24.0
+            gast = oracle.sun_apparent(jd0)[2]
+            rep.violation("eph-sidereal", "independent ephemeris: on %s (gmt %.4f) the library's sidereal time is %.4f, apparent sidereal time at Greenwich is %.4f; "
+                          "Dhuhr misses the transit by more than 10 s" % (e["date"], e["gmt"], c["astros"][1][4], gast), c, o)
+            hit = True
+            break
+    return hit
